@@ -495,6 +495,84 @@ def threshold_line(ctx, count, rng):
     ctx.differential('threshold-quota-selector', qs_cases, c09.qs_model_line, qsel_impl, canon=c09.canon, nontrivial=big_or_on_line, spec=qsel_spec)
 
 
+# ------------------------------------------------------------------ open lists: a candidate on the jump line, one vote above, one vote below
+def ol_line_impl(c):
+    import votelib.evaluate.openlist as ol
+    kw = {}
+    if c['jump'] is not None:
+        kw['jump_fraction'] = c16.pynum(c['jump'])
+    if c['quota'] is not None:
+        kw['quota_function'] = c16.QN[c['quota']]
+        if c['qfrac'] != 'i:1':
+            kw['quota_fraction'] = c16.pynum(c['qfrac'])
+    ev = ol.ThresholdOpenList(take_higher=bool(c['th']), accept_equal=bool(c['ae']), list_precedence=bool(c['lp']), **kw)
+    return ok([cnum(x) for x in ev.evaluate(line_votes(c), c['n'], [cname(p) for p in c['list']])])
+
+
+def ol_exact(c):
+    """ThresholdOpenList read declaratively on exact rationals: who is over the jump line (the lower / higher of fraction * total and
+    quota_fraction * quota(total, n)), cut to n by votes or by list order, filled up from the list"""
+    exact = {p: q(v) for p, v in c['votes']}
+    total = sum(exact.values())
+    lines = []
+    if c['jump'] is not None:
+        lines.append(total * c16.qn(c['jump']))
+    if c['quota'] is not None:
+        lines.append(total / (c['n'] + {1: 0, 4: 1, 7: 2}[c['quota']]) * c16.qn(c['qfrac']))
+    if not lines:
+        return c['list'][:c['n']]
+    line = max(lines) if c['th'] else min(lines)
+    order = sorted(exact, key=lambda p: -exact[p])           # stable: equal votes keep the order of the votes
+    jumping = [p for p in order if passes(exact[p], line, c['ae'])]
+    if len(jumping) > c['n']:
+        if c['lp']:
+            kept = sorted(jumping, key=c['list'].index)[:c['n']]
+            return sorted(kept, key=lambda p: -exact[p])
+        return jumping[:c['n']]
+    out = list(jumping)
+    for p in c['list']:
+        if len(out) == c['n']:
+            break
+        if p not in out:
+            out.append(p)
+    return out
+
+
+def ol_line_spec(c, io, mo):
+    v = common.parse_sx(io)
+    if v[0] != 0:
+        return 'open list refused exact rational votes: %s' % c.get('_exc')
+    want = ol_exact(c)
+    if v[1] != want:
+        return ('open list (jump %s, quota %s x %s, %s of the two lines) returns %s; in exact arithmetic the result is %s'
+                % (c['jump'], c16.QN.get(c['quota']), c['qfrac'], 'higher' if c['th'] else 'lower', v[1], want))
+    return None
+
+
+def open_list_line(ctx, count, rng):
+    cases = []
+    for g in gen_line_profiles(rng, count):
+        t = g.pop('t')
+        g.pop('thr_rep')
+        ids = [p for p, _ in g['votes']]
+        lst = ids[:]
+        rng.shuffle(lst)
+        jump = 'f:%s' % t
+        d = _as_decimal(t)
+        if d is not None and g['rep'] == 'int' and rng.random() < 0.5:      # a Decimal fraction only with int counts (Fraction x Decimal is a TypeError: outside the quantifier)
+            jump = 'd:%s' % d
+        r = rng.random()
+        quota = rng.choice([1, 4, 7]) if r < 0.4 else None
+        if r > 0.85:
+            jump, quota = None, rng.choice([1, 4, 7])
+        cases.append(dict(g, unit='openlist', jump=jump, quota=quota, qname=True, qfrac=rng.choice(['i:1', 'f:1/2', 'f:3/2']) if quota else 'i:1',
+                          th=rng.randint(0, 1), ae=1 if g.pop('ae') else 0, lp=rng.randint(0, 1), n=rng.randint(1, len(ids)), list=lst))
+    for c in cases:
+        ctx.dist['open-list:k>2^53' if int(c['k']) > 2 ** 53 else 'open-list:k<=2^53'] += 1
+        ctx.dist['open-list:jump=%s' % (c['jump'] or 'none')[:1]] += 1
+    ctx.differential('open-list-line', cases, c16.ol_model_line, ol_line_impl, canon=c16.ol_canon, nontrivial=big_or_on_line, spec=ol_line_spec)
+
+
 # ------------------------------------------------------------------ PureProportionality: implementation on k-fold votes vs the model on the votes
 def pp_model_line(c):
     return '%d (%s %d %s %s)' % (BLOCK['C11'] + 1, sx([[p, q(v)] for p, v in c['votes']]), c['n'],
@@ -874,6 +952,8 @@ def replay_case(ctx, c, stream):
         ctx.differential(stream, [c], c09.qs_model_line, qsel_impl, canon=c09.canon, nontrivial=lambda cc: True, spec=qsel_spec)
     elif c.get('unit') in ('pav', 'spav'):
         ctx.differential(stream, [c], c12.model_line, ap_impl, canon=c12.canon, nontrivial=lambda cc: True, spec=ap_spec, limit=10)
+    elif c.get('unit') == 'openlist':
+        ctx.differential(stream, [c], c16.ol_model_line, ol_line_impl, canon=c16.ol_canon, nontrivial=lambda cc: True, spec=ol_line_spec)
     elif c.get('unit') == 'pure_proportionality':
         ctx.differential(stream, [c], pp_model_line, pp_impl, canon=pp_canon, nontrivial=lambda cc: True, spec=pp_spec)
     elif c.get('unit') == 'highest_averages':
@@ -903,6 +983,7 @@ def explore(ctx, widen=1):
     type_metamorphic(ctx, 'int-vs-fraction', ctx.n(2500, 40000) * widen, rng)
     near_tie_checks(ctx, 'near-tie', ctx.n(150, 2000), rng)
     threshold_line(ctx, ctx.n(900, 12000) * widen, rng)
+    open_list_line(ctx, ctx.n(700, 9000) * widen, rng)
     approval_ties(ctx, ctx.n(500, 6000) * widen, rng)
     ctx.differential('pure-proportionality', gen_pure(rng, ctx.n(1200, 15000) * widen), pp_model_line, pp_impl, canon=pp_canon,
                      nontrivial=lambda c: q(c['k']) > 2 ** 53 or bool(c['prev'] or c['caps']), spec=pp_spec)
